@@ -4,6 +4,7 @@ import Driver.Life
 import Driver.Net
 import Driver.Tls
 import Driver.Client
+import Driver.Ffi
 /-
   Line-protocol driver: one case per input line, one output line `<model> ## <spec>` per case.
 -/
@@ -21,7 +22,13 @@ def runCase (line : String) : String :=
   | some "life" => let (m, s) := runLife tok; s!"{m} ## {s}"
   | some "net" => let (m, s) := runNet tok; s!"{m} ## {s}"
   | some "tls" => let (m, s) := runTls tok; s!"{m} ## {s}"
-  | some "cl" => let m := runCl tok; s!"{m} ## {m}"
+  | some "cl" =>
+    -- every output the model admits over the scheduler's choices (`tokio::select!` order),
+    -- the default-order output first; the specification side is the same set
+    let all := " || ".intercalate (runClAll tok)
+    s!"{all} ## {all}"
+  | some "clq" => let m := runClState tok; s!"{m} ## {m}"
+  | some "ffi" => let (m, s) := runFfi tok; s!"{m} ## {s}"
   | some "rdr" => let (m, s) := runRdr tok; s!"{m} ## {s}"
   | some "srv" => let (m, s) := runSrv tok; s!"{m} ## {s}"
   | some other => s!"unknown-suite {other} ## unknown-suite {other}"
